@@ -654,8 +654,9 @@ func runC02(rc *RunCtx) {
 	// makes a few more requests; they pin the end state (a stale cache entry
 	// put back by a request that raced with a change shows here at the latest)
 	for _, t := range toks {
-		for _, pa := range paths {
-			doReq(90, "fin", reqPlan{tok: t, path: pa, op: []string{"read", "update"}[tp.Pick(2)], remote: "127.0.0.1"})
+		off := tp.Pick(len(paths))
+		for j := 0; j < 4; j++ {
+			doReq(90, "fin", reqPlan{tok: t, path: paths[(off+2*j)%len(paths)], op: []string{"read", "update"}[tp.Pick(2)], remote: "127.0.0.1"})
 		}
 	}
 	// (3) denied requests left no trace under the mount
@@ -690,7 +691,7 @@ func runC02(rc *RunCtx) {
 		Equal: func(a, b any) bool { return a.(string) == b.(string) },
 	}
 	sort.SliceStable(ops, func(i, j int) bool { return ops[i].Call < ops[j].Call })
-	switch porcupine.CheckOperationsTimeout(nd.ToModel(), ops, 20*time.Second) {
+	switch checkBounded(nd, ops, 120000) {
 	case porcupine.Illegal:
 		// classify: which single request cannot be explained?
 		s.Violate("C02", "authorisation-history-not-linearizable", map[string]any{"faulty": s.Faults["err-na"] > 0},
